@@ -304,6 +304,9 @@ def binop(op, a, b):
                     return C(op == "isnot")
                 if p.k == "const":
                     return C((p.a[0] is None) == (op == "is"))
+                if p.k == "sym":
+                    # convention: a symbolic input is never None; None-ness is enumerated by the drivers
+                    return C(op == "isnot")
                 if p.k == "gamma":
                     return gamma(p.a[0], binop(op, p.a[1], q), binop(op, p.a[2], q))
         return T("op", op, a, b, ty="bool")
